@@ -351,4 +351,27 @@ theorem head_not_minus (gs : List Grp) (hwf : ∀ g ∈ gs, g.WF) : splitSign (s
     · rename_i r' heq; simp only [List.cons.injEq] at heq; exact absurd heq.1 this
     · rfl
 
+/-! ## deepening round D: helper lemmas -/
+
+theorem mem_samplesFrom (dt : Int) (hdt : 0 < dt) :
+    ∀ (l : List Int) (t0 : Int) (x : Sample), x ∈ samplesFrom t0 dt l →
+      t0 ≤ x.1 ∧ x.1 < t0 + l.length * dt := by
+  intro l
+  induction l with
+  | nil => intro t0 x hx; simp [samplesFrom] at hx
+  | cons v vs ih =>
+    intro t0 x hx
+    simp only [samplesFrom, List.mem_cons] at hx
+    have e : ((vs.length + 1 : Nat) : Int) * dt = vs.length * dt + dt := by
+      rw [Int.natCast_add, Int.add_mul]; omega
+    have hnn : 0 ≤ (vs.length : Int) * dt := Int.mul_nonneg (by omega) (by omega)
+    rcases hx with hx | hx
+    · subst hx
+      simp only [List.length_cons]
+      rw [e]; omega
+    · have := ih (t0 + dt) x hx
+      simp only [List.length_cons]
+      rw [e]; omega
+
+
 end Verif.C01
